@@ -62,13 +62,13 @@ type ValUpdate struct {
 // HeightPlan is what the scripted application and the chain builder do at one height.
 type HeightPlan struct {
 	Txs          [][]byte
-	ValUpdates   []ValUpdate             // returned from EndBlock
-	Params       *abci.ConsensusParams   // returned from EndBlock
-	RetainHeight int64                   // returned from Commit
-	Evidence     []types.Evidence        // put into the block
-	Round        int32                   // round of the commit for this block
-	Flags        []types.BlockIDFlag     // per validator index of the commit for this block (default: all commit)
-	TsOffsets    []time.Duration         // per validator index vote timestamp offset from block time (default 1s+i ms)
+	ValUpdates   []ValUpdate           // returned from EndBlock
+	Params       *abci.ConsensusParams // returned from EndBlock
+	RetainHeight int64                 // returned from Commit
+	Evidence     []types.Evidence      // put into the block
+	Round        int32                 // round of the commit for this block
+	Flags        []types.BlockIDFlag   // per validator index of the commit for this block (default: all commit)
+	TsOffsets    []time.Duration       // per validator index vote timestamp offset from block time (default 1s+i ms)
 	EndEvents    []abci.Event
 	BeginEvents  []abci.Event
 	DeliverFn    func(tx []byte) abci.ResponseDeliverTx
@@ -101,6 +101,23 @@ type ScriptApp struct {
 	CheckTxFn  func(req abci.RequestCheckTx) abci.ResponseCheckTx
 	QueryFn    func(req abci.RequestQuery) abci.ResponseQuery
 	AppVersion uint64
+	Hist       map[int64][]byte // committed height -> app hash (for Rollback)
+}
+
+// Rollback makes the application forget its most recent commits: it reports `to` as its last committed height
+// again (an application restored from an older snapshot of its own state). Journalled as "Rollback".
+func (a *ScriptApp) Rollback(to int64) {
+	a.Mu.Lock()
+	defer a.Mu.Unlock()
+	if to >= a.Height || to < 0 {
+		return
+	}
+	a.Height = to
+	a.AppHash = nil
+	if to > 0 {
+		a.AppHash = a.Hist[to]
+	}
+	a.log("Rollback", to, nil, "")
 }
 
 func NewScriptApp() *ScriptApp {
@@ -201,6 +218,10 @@ func (a *ScriptApp) Commit() abci.ResponseCommit {
 	}
 	a.AppHash = append([]byte(nil), full[:n]...)
 	a.Height = a.cur
+	if a.Hist == nil {
+		a.Hist = map[int64][]byte{}
+	}
+	a.Hist[a.cur] = a.AppHash
 	a.log("Commit", a.cur, nil, fmt.Sprintf("%X", a.AppHash))
 	var retain int64
 	if p := a.Plans[a.cur]; p != nil {
